@@ -287,6 +287,16 @@ def decode_pair(a, b):
 
 
 def prop(case, ctx):
+    # Every Violation leaves through this one raise statement: Hypothesis keys distinct
+    # failures on the raising line, and the driver's shrink-time cap only re-admits the
+    # last failing case, so two raise sites in one round can end in a FlakyFailure (exit 2).
+    try:
+        _prop(case, ctx)
+    except Violation as v:
+        raise Violation(v.bucket, v.message) from None
+
+
+def _prop(case, ctx):
     desc = {"n": case["n"], "ncl": case["ncl"], "ops": case["ops"]}
     f = features(desc)
     n, k, meas = f["n"], f["k"], f["meas"]
@@ -517,6 +527,12 @@ def if_block(draw, written, targets, multi=None, orelse=None):
 def circuit(draw, mode="main", tier="quick"):
     """mode: main (all shapes mixed) | lowcut | leak_condition | clbit_order |
     multi_qubit_body | else_body (one shape forced each) | three_cz"""
+    mixed = mode == "main"          # block shapes / clbit assignment drawn, not forced
+    if mode == "main" and draw(st.integers(0, 5)) == 0:
+        # one main case in six takes the structure of the leak_condition part (entangler,
+        # spectator measured first, condition on the clbit of an entangled qubit): the
+        # non-code outcome only survives piquasso's isclose filter in this order
+        mode = "leak_condition"
     if mode == "lowcut":
         n = draw(st.sampled_from([2, 2, 3]))
         ent = [0]
@@ -602,12 +618,15 @@ def circuit(draw, mode="main", tier="quick"):
             else:
                 usable = list(written)
             n_if = draw(st.integers(0, 2)) if mode == "main" else draw(st.integers(1, 2))
+            force = not mixed
             for _ in range(n_if):
                 if budget[0] <= 0 or not usable:
                     break
                 blk = draw(if_block(usable, free,
-                                    multi=True if mode == "multi_qubit_body" else None,
-                                    orelse=True if mode == "else_body" else None))
+                                    multi=True if mode == "multi_qubit_body" else
+                                    (False if force else None),
+                                    orelse=True if mode == "else_body" else
+                                    (False if force else None)))
                 budget[0] -= len(blk["body"]) + len(blk.get("orelse", []))
                 ops.append(blk)
             ops.extend(draw(gate_block(free, take(0, 2), ent)))
@@ -628,7 +647,7 @@ def circuit(draw, mode="main", tier="quick"):
         ops.append({"g": "measure", "q": [q], "c": nmeas})
         nmeas += 1
     ncl = max(n, nmeas)
-    if nmeas and (mode == "clbit_order" or (mode == "main" and draw(st.integers(0, 2)) == 0)):
+    if nmeas and (mode == "clbit_order" or (mixed and draw(st.integers(0, 2)) == 0)):
         # re-assign the clbits with a drawn injection positions -> clbits (forced to differ
         # from the identity in the clbit_order part)
         ncl = max(n, nmeas) + draw(st.integers(0, 1))
